@@ -5,7 +5,7 @@ use std::collections::BTreeSet;
 
 use bytes::Bytes;
 use enumflags2::BitFlags;
-use speedy::{Endianness, Writable};
+use speedy::{Endianness, Readable, Writable};
 
 use crate::{
   dds::{ddsdata::DDSData, key::KeyHash, with_key::datawriter::WriteOptionsBuilder},
@@ -126,15 +126,29 @@ fn record(st: &mut Stats, key: &str, what: String, case: &str) {
 
 /// the round-trip oracle for one message in one byte order
 fn check(st: &mut Stats, name: &str, m: &Message, e: Endianness) {
+  check_ctx(st, name, m, e, e)
+}
+
+fn check_ctx(st: &mut Stats, name: &str, m: &Message, e: Endianness, ctx: Endianness) {
+  check_each(st, name, m, &[e], ctx)
+}
+
+/// The same with the serialisation context `ctx` possibly differing from the byte order `e`
+/// the submessages were built for: each submessage header announces its own byte order, and
+/// the body has to be written in the announced one whatever the caller's context is.
+/// `es`: the byte order each submessage was built for (one entry: all of them).
+fn check_each(st: &mut Stats, name: &str, m: &Message, es: &[Endianness], ctx: Endianness) {
   st.messages += 1;
   st.submessages += m.submessages.len() as u64;
-  let case = format!("{name} [{e:?}]");
-  let bytes = match m.write_to_vec_with_ctx(e) {
+  let uniform = es.iter().all(|x| *x == ctx);
+  let e = es[0];
+  let case = if uniform { format!("{name} [{e:?}]") } else { format!("{name} [{es:?} submessages, written in a {ctx:?} context]") };
+  let bytes = match m.write_to_vec_with_ctx(ctx) {
     Ok(b) => b,
     Err(x) => return record(st, "C14:serialize-error", format!("cannot serialise: {x}"), &case),
   };
   let kinds: Vec<String> = m.submessages.iter().map(|s| format!("{:?}", s.header.kind)).collect();
-  st.classes.insert(format!("{kinds:?}/{e:?}/len%4={}", bytes.len() % 4));
+  st.classes.insert(format!("{kinds:?}/{e:?}{}/len%4={}", if uniform { "" } else { "/other-ctx" }, bytes.len() % 4));
   // 1. framing, judged by the independent walker
   match walk(&bytes) {
     Err(x) => return record(st, &format!("C14:framing:{}", kinds.last().cloned().unwrap_or_default()), x, &case),
@@ -144,8 +158,9 @@ fn check(st: &mut Stats, name: &str, m: &Message, e: Endianness) {
       }
       for (i, ((_, fl, _), s)) in w.iter().zip(m.submessages.iter()).enumerate() {
         let le = fl & 1 == 1;
+        let e = es[i.min(es.len() - 1)];
         if le != (e == Endianness::LittleEndian) {
-          return record(st, &format!("C14:framing:endianness-flag:{}", kinds[i]), format!("submessage {i} has endianness flag {le} in a message written {e:?}"), &case);
+          return record(st, &format!("C14:framing:endianness-flag:{}", kinds[i]), format!("submessage {i} has endianness flag {le} although it was built for {e:?}"), &case);
         }
         if *fl != s.header.flags {
           return record(st, &format!("C14:framing:flags:{}", kinds[i]), format!("submessage {i}: flags on the wire {fl:#x}, in the header struct {:#x}", s.header.flags), &case);
@@ -179,7 +194,7 @@ fn check(st: &mut Stats, name: &str, m: &Message, e: Endianness) {
   }
   // 3. re-serialising the parsed (canonical) message reproduces the bytes
   let again = Message { header: parsed.header, submessages: parsed.submessages.iter().cloned().map(|mut s| { s.original_bytes = None; s }).collect() };
-  match again.write_to_vec_with_ctx(e) {
+  match again.write_to_vec_with_ctx(ctx) {
     Ok(b2) if b2 == bytes => {}
     Ok(b2) => record(st, &format!("C14:reserialize:{}", kinds.first().cloned().unwrap_or_default()), format!("re-serialising the parsed message gives {} bytes that differ from the {} original ones (first difference at {:?})", b2.len(), bytes.len(), b2.iter().zip(bytes.iter()).position(|(a, b)| a != b)), &case),
     Err(x) => record(st, "C14:reserialize", format!("cannot re-serialise: {x}"), &case),
@@ -190,6 +205,8 @@ fn both(st: &mut Stats, name: &str, f: &dyn Fn(Endianness) -> Message) {
   for e in [Endianness::LittleEndian, Endianness::BigEndian] {
     let m = f(e);
     check(st, name, &m, e);
+    let other = if e == Endianness::LittleEndian { Endianness::BigEndian } else { Endianness::LittleEndian };
+    check_ctx(st, name, &m, e, other);
   }
 }
 
@@ -279,6 +296,76 @@ fn number_sets(st: &mut Stats) {
       });
     }
   }
+  // Sets as they arrive from another implementation: numBits and bitmap taken from the wire, the
+  // unused low bits of the last bitmap word not necessarily zero.  Members are the set bits below
+  // numBits and nothing else, whichever end the iterator is driven from.
+  for num_bits in [0u32, 1, 2, 25, 31, 32, 33, 63, 64, 65, 255, 256] {
+    let words = ((num_bits + 31) / 32) as usize;
+    for (pname, pat) in [("all-ones", u32::MAX), ("zero", 0), ("alternating", 0xAAAA_AAAA), ("low-bits", 0x0000_00FF), ("high-bit", 0x8000_0000), ("lowest-bit", 1)] {
+      for only_last in [false, true] {
+        let bitmap: Vec<u32> = (0..words).map(|w| if !only_last || w + 1 == words { pat } else { 0 }).collect();
+        let expect: Vec<u32> = (0..num_bits).filter(|b| bitmap[(b / 32) as usize] & (1 << (31 - b % 32)) != 0).collect();
+        for e in [Endianness::LittleEndian, Endianness::BigEndian] {
+          st.number_sets += 1;
+          let put = |v: u32, out: &mut Vec<u8>| out.extend_from_slice(&if e == Endianness::LittleEndian { v.to_le_bytes() } else { v.to_be_bytes() });
+          // SequenceNumberSet: base {high: i32, low: u32}, numBits, bitmap
+          let base = 1000i64;
+          let mut raw = vec![];
+          put(0, &mut raw);
+          put(base as u32, &mut raw);
+          put(num_bits, &mut raw);
+          bitmap.iter().for_each(|w| put(*w, &mut raw));
+          let case = format!("parsed SequenceNumberSet numBits {num_bits} bitmap {pname}{} [{e:?}]", if only_last { " (last word only)" } else { "" });
+          match SequenceNumberSet::read_from_buffer_with_ctx(e, &raw) {
+            Err(x) => record(st, "C14:numberset:parse", format!("a well-formed set does not parse: {x}"), &case),
+            Ok(sns) => {
+              let want: Vec<i64> = expect.iter().map(|b| base + i64::from(*b)).collect();
+              number_set_iteration(st, &case, &want, sns.iter().map(i64::from).collect(), sns.iter().rev().map(i64::from).collect(), {
+                let mut it = sns.iter();
+                let mut v = vec![];
+                loop {
+                  let (a, b) = (it.next(), it.next_back());
+                  v.extend(a.map(i64::from));
+                  v.extend(b.map(i64::from));
+                  if a.is_none() && b.is_none() {
+                    break v;
+                  }
+                }
+              });
+              if sns.is_empty() != want.is_empty() {
+                record(st, "C14:numberset:membership", format!("is_empty() says {} for a set with {} members", sns.is_empty(), want.len()), &case);
+              }
+            }
+          }
+          // FragmentNumberSet: base u32, numBits, bitmap
+          let fbase = 7u32;
+          let mut raw = vec![];
+          put(fbase, &mut raw);
+          put(num_bits, &mut raw);
+          bitmap.iter().for_each(|w| put(*w, &mut raw));
+          let case = format!("parsed FragmentNumberSet numBits {num_bits} bitmap {pname}{} [{e:?}]", if only_last { " (last word only)" } else { "" });
+          match FragmentNumberSet::read_from_buffer_with_ctx(e, &raw) {
+            Err(x) => record(st, "C14:numberset:parse", format!("a well-formed set does not parse: {x}"), &case),
+            Ok(fns) => {
+              let want: Vec<i64> = expect.iter().map(|b| i64::from(fbase + b)).collect();
+              number_set_iteration(st, &case, &want, fns.iter().map(|x| i64::from(u32::from(x))).collect(), fns.iter().rev().map(|x| i64::from(u32::from(x))).collect(), {
+                let mut it = fns.iter();
+                let mut v = vec![];
+                loop {
+                  let (a, b) = (it.next(), it.next_back());
+                  v.extend(a.map(|x| i64::from(u32::from(x))));
+                  v.extend(b.map(|x| i64::from(u32::from(x))));
+                  if a.is_none() && b.is_none() {
+                    break v;
+                  }
+                }
+              });
+            }
+          }
+        }
+      }
+    }
+  }
   // fragment number sets
   for base in [1u32, 2, 255, 256, 257, 65_535, u32::MAX - 300] {
     for (pname, offs) in [("empty", vec![]), ("base", vec![0u32]), ("base+255", vec![255]), ("0,31,32", vec![0, 31, 32]), ("dense256", (0..256).collect()), ("0..=256", (0..=256).collect::<Vec<u32>>()), ("256,300", vec![256, 300])] {
@@ -301,6 +388,21 @@ fn number_sets(st: &mut Stats) {
         m
       });
     }
+  }
+}
+
+/// forward, backward and alternating iteration of one number set against the members it has
+fn number_set_iteration(st: &mut Stats, case: &str, want: &[i64], fwd: Vec<i64>, back: Vec<i64>, mut alternating: Vec<i64>) {
+  let (lo, hi) = (want.first().copied(), want.last().copied());
+  let outside = |v: &[i64]| v.iter().any(|x| !want.contains(x)) && v.iter().any(|x| Some(*x) < lo || Some(*x) > hi || lo.is_none());
+  if outside(&fwd) || outside(&back) || outside(&alternating) {
+    return record(st, "C14:numberset:outside-window", format!("reports members outside the window numBits declares: forward {:?}, members {:?}", &fwd[fwd.len().saturating_sub(3)..], &want[want.len().saturating_sub(3)..]), case);
+  }
+  let mut rev = back.clone();
+  rev.reverse();
+  alternating.sort_unstable();
+  if fwd != want || rev != want || alternating != want {
+    record(st, "C14:numberset:membership", format!("members {} / forward iteration {} / backward {} / alternating ends {} (first forward difference at {:?})", want.len(), fwd.len(), back.len(), alternating.len(), fwd.iter().zip(want.iter()).position(|(a, b)| a != b)), case);
   }
 }
 
@@ -493,6 +595,21 @@ fn compositions(st: &mut Stats, max_len: usize) {
       }
       m
     });
+  }
+  // every ordered pair with the two submessages announcing different byte orders, in either context
+  let (le, be) = (reps(Endianness::LittleEndian), reps(Endianness::BigEndian));
+  for a in 0..n {
+    for b in 0..n {
+      for (ea, eb) in [(Endianness::LittleEndian, Endianness::BigEndian), (Endianness::BigEndian, Endianness::LittleEndian)] {
+        let pick = |e: Endianness, i: usize| if e == Endianness::LittleEndian { le[i].1.clone() } else { be[i].1.clone() };
+        let mut m = base_msg();
+        m.add_submessage(pick(ea, a));
+        m.add_submessage(pick(eb, b));
+        for ctx in [Endianness::LittleEndian, Endianness::BigEndian] {
+          check_each(st, &format!("mixed composition [{}, {}]", le[a].0, le[b].0), &m, &[ea, eb], ctx);
+        }
+      }
+    }
   }
 }
 
